@@ -167,13 +167,24 @@ def run_case(case):
                         max(mag, float(np.max(np.abs(R.J), initial=0)) * rho * max(1.0, float(np.max(np.abs(R.c), initial=0)))))
                     chk("aug_lag_deriv_xx", it.aug_lag_deriv_xx(rho).toarray(), Hr, at2, max(1.0, float(np.max(np.abs(Hr)))) * 4)
             # implicit function for 3 of the 27 (y0-variant, rho, dt) combinations, all active sets
-            for _ in range(3):
+            for sub in range(3):
                 yk, rk, dk = combos[ci % 27]
                 ci += 1
                 rho, dt = RHOS[rk], DTS[dk]
                 y0 = ys[yk]
                 it0 = Iterate(P, params, x0, y0, ev)
                 func = ImplicitFunc(P, it0, dt)
+                if sub == 0:
+                    # one function object, one iterate object, several penalties in turn (no result may depend on an earlier rho)
+                    for rho_other in RHOS:
+                        p_o = O.implicit_p(T, (x0, y0), R, rho_other, dt)
+                        with np.errstate(all="ignore"):
+                            A_o = O.implicit_active(T, p_o)
+                            mg = np.minimum(np.abs(p_o - (T.var_lb - 1e-8)), np.abs(p_o - (T.var_ub + 1e-8)))
+                            if (mg > 1e-9 * max(1.0, float(np.max(np.abs(p_o))))).all():
+                                want_o = O.implicit_value(T, (x0, y0), R, rho_other, dt, A_o)
+                                chk("value_at(same object, other rho)", func.value_at(it, rho_other), want_o,
+                                    dict(at, rho=rho_other, dt=dt, y0=y0.tolist()), max(1.0, float(np.max(np.abs(p_o))), float(np.max(np.abs(want_o)))))
                 at3 = dict(at, rho=rho, dt=dt, y0=y0.tolist())
                 with np.errstate(all="ignore"):
                     p_ref = O.implicit_p(T, (x0, y0), R, rho, dt)
